@@ -628,6 +628,16 @@ func zzC05Families(sys *zzC05Sys) (fams map[string]func(rng *rand.Rand, i int)) 
 				zzC05API(post, "/control/dhcp/remove_static_lease", le)
 			}
 		},
+		// The persist step of an admin operation that touches none of the
+		// filter's own locks otherwise; its worker (zzC05WorkerOf) is the
+		// write-back step that ends a refresh which found new list contents.
+		"Persist": func(rng *rand.Rand, i int) {
+			if i%2 == 0 {
+				zzC05API(post, "/control/safebrowsing/disable", m{})
+			} else {
+				zzC05API(post, "/control/parental/disable", m{})
+			}
+		},
 		"Reads": func(rng *rand.Rand, i int) {
 			for _, p := range []string{"/control/status", "/control/clients", "/control/filtering/status",
 				"/control/access/list", "/control/rewrite/list", "/control/blocked_services/get",
@@ -706,6 +716,10 @@ func zzC05WorkerOf(fam string) (step func()) {
 	switch fam {
 	case "FilterLists":
 		return globalContext.filters.ZZVerifRefreshStep
+	case "Persist":
+		// What refreshFiltersIntl does, on the worker's goroutine and outside
+		// the control lock, after a refresh that replaced a list.
+		return func() { globalContext.filters.EnableFilters(false) }
 	case "StatsConf":
 		if sc, ok := globalContext.stats.(interface{ ZZVerifNextHour() }); ok {
 			return sc.ZZVerifNextHour
@@ -957,6 +971,20 @@ func zzC05RunFamily(
 	return res
 }
 
+// zzC05ForgetLists removes the two extra list locations from both kinds of
+// lists: the per-family rounds that run first may leave one of them behind as
+// an ALLOW list (the FilterLists operation adds "extra" with a seeded choice
+// of kind), and a location can only be configured once, so the block list the
+// list scenarios are about would then be refused and never be in force (false
+// alarm of the harness at seed 3).
+func zzC05ForgetLists(sys *zzC05Sys) {
+	for _, u := range []string{sys.listSrv.URL + "/extra0.txt", sys.listSrv.URL + "/extra1.txt"} {
+		for _, wl := range []bool{true, false} {
+			zzC05API(http.MethodPost, "/control/filtering/remove_url", map[string]any{"url": u, "whitelist": wl})
+		}
+	}
+}
+
 // TestZZVerifC05Gated forces the interleavings of Concurrency.tla in which a
 // request is parked in its Upstream stage (the mock upstream blocks on a gate)
 // while one admin operation runs to completion, then is released: the request
@@ -1137,6 +1165,7 @@ func TestZZVerifC05Gated(t *testing.T) {
 	for i := 0; i < rounds; i++ {
 		res := &gatedRes{Kind: "gated", Family: "FilterLists", Round: 1000 + i}
 		u0, u1 := sys.listSrv.URL+"/extra0.txt", sys.listSrv.URL+"/extra1.txt"
+		zzC05ForgetLists(sys)
 		zzC05API(post, "/control/filtering/add_url", m{"name": "extra0", "url": u0, "whitelist": false})
 		zzC05API(post, "/control/filtering/add_url", m{"name": "extra1", "url": u1, "whitelist": false})
 		sys.listBody.Store(fmt.Sprintf("||listed.example^\n||ads.example^\n||parked%d.example^\n", i))
@@ -1217,6 +1246,7 @@ func TestZZVerifC05Gated(t *testing.T) {
 	for i := 0; i < rounds; i++ {
 		res := &gatedRes{Kind: "gated", Family: "FilterLists", Round: 1500 + i}
 		u0 := sys.listSrv.URL + "/extra0.txt"
+		zzC05ForgetLists(sys)
 		zzC05API(post, "/control/filtering/add_url", m{"name": "extra0", "url": u0, "whitelist": false})
 		setURL := func(enabled bool) {
 			zzC05API(post, "/control/filtering/set_url", m{"url": u0, "whitelist": false,
